@@ -268,6 +268,8 @@ def edge_case(edges, fl, via='list', style=0):
     def arg():
         if via == 'array':
             return np.array([list(e) for e in pe])
+        if via.startswith('array:'):        # an integer edge array of another integer dtype (int32 is what A.nonzero() gives)
+            return np.array([list(e) for e in pe], dtype=via[6:])
         return pe
 
     def f(**over):
@@ -860,12 +862,33 @@ def gen_edge_cases(ctx, out, earlies):
         style = 0
         if rng.random() < 0.2 and kind != 'mixed' and not (kind == 'big' and wm != 'none'):
             via = 'array'           # (an ndarray of big integers and float weights is a float array: not exact)
+            ws = [w for _, _, w in edges if w is not None]
+            if kind in ('int', 'gap', 'neg') and all(Fraction(w).denominator == 1 and 0 <= w < 100 for w in ws) \
+                    and rng.random() < 0.7:
+                # integer identifiers (and weights) in an integer dtype other than int64: same graph as the int64 array
+                via = 'array:' + rng.choice(['int32', 'int32', 'int16', 'int8', 'int64'] if kind == 'neg' else
+                                            ['int32', 'int32', 'int16', 'int8', 'uint8', 'uint16', 'uint32', 'uint64'])
+                ctx.count('edge-array-dtype:' + via[6:])
         elif wm != 'none' and rng.random() < 0.15:
             style = rng.choice([1, 2]) if kind in ('str', 'strnum') else 1
         c, e = edge_case(edges, fl, via, style)
         out.append(c)
         earlies.append((c, e))
         ctx.count('ids:' + kind)
+    # integer edge arrays of every integer dtype (scipy index arrays are int32): the graph of the same rows as an int64 array
+    for _ in range(200 if quick else 3000):
+        kind = rng.choice(['int', 'gap', 'gap', 'neg'])
+        pool = {'int': list(range(rng.randint(2, 5))), 'gap': sorted(rng.sample(range(0, 12), rng.randint(2, 4))),
+                'neg': sorted(rng.sample(range(-3, 6), rng.randint(2, 4)))}[kind]
+        wm = rng.choice(['none', 'none', 'small'])
+        edges = rand_edges(rng, pool, rng.randint(1, 6), wm)
+        fl = rand_flags(rng)
+        via = 'array:' + rng.choice(['int32', 'int32', 'int16', 'int8', 'int64'] if kind == 'neg' else
+                                    ['int32', 'int32', 'int16', 'int8', 'uint8', 'uint16', 'uint32', 'uint64'])
+        c, e = edge_case(edges, fl, via, 0)
+        out.append(c)
+        earlies.append((c, e))
+        ctx.count('edge-array-dtype:' + via[6:])
     # degenerate: empty list, ragged tuples, text weights, negative ids without reindex, floats as weights only
     deg = [([], mkflags()), ([], mkflags(bipartite=True)), ([], mkflags(reindex=True)),
            ([(0, 1, Fraction(1)), (1, 2, None)], mkflags(directed=True)),
